@@ -438,6 +438,63 @@ fn registry_stress(st: &mut Stats, seed: u64, n: usize) {
     st.shapes.insert(fnv(b"large-registry"));
 }
 
+/// The registry is data: whatever the tracers next to it are (more of them, fewer of them — a
+/// master key whose tracing level was changed while some keys have not been refreshed yet), reading
+/// a master key from bytes must load every id the bytes hold.
+fn registry_across_level_change(st: &mut Stats, seed: u64) {
+    let mut rng = Rng::new(seed ^ 0x1e7e1);
+    let cc = Covercrypt::default();
+    let Some((mut msk, _)) = call(|| cc.setup()).ok() else { return };
+    let _ = msk.access_structure.add_anarchy("D".into());
+    let _ = msk.access_structure.add_attribute(QualifiedAttribute::new("D", "A"), hint(false), None);
+    if call(|| cc.update_msk(&mut msk)).ok().is_none() {
+        return;
+    }
+    let ap = AccessPolicy::parse("D::A").unwrap();
+    let tracer = |rng: &mut Rng| -> Option<(Vec<u8>, Vec<u8>)> {
+        let mut t = rng.bytes(32);
+        t[0] = 0;
+        t[31] = 0;
+        t[15] |= 1;
+        let p = arith::base_mul(&t)?;
+        Some((t, p))
+    };
+    // level 1 -> 2 (one more tracer), keys issued at level 2, then back to level 1 by dropping the
+    // first tracer, then up again
+    let mut edits: Vec<(&str, Box<dyn Fn(&mut WMsk, &mut Rng) -> Option<()>>)> = vec![];
+    edits.push(("tracer-appended", Box::new(move |w, rng| { w.tracers.push(tracer(rng)?); Some(()) })));
+    edits.push(("first-tracer-removed", Box::new(|w, _| { if w.tracers.len() > 2 { w.tracers.remove(0); } Some(()) })));
+    edits.push(("last-tracer-removed", Box::new(|w, _| { if w.tracers.len() > 2 { w.tracers.pop(); } Some(()) })));
+    let mut issued = 0usize;
+    for round in 0..6 {
+        for _ in 0..5 {
+            if call(|| cc.generate_user_secret_key(&mut msk, &ap)).is_ok() {
+                issued += 1;
+            }
+        }
+        let (name, edit) = &edits[[0usize, 1, 0, 0, 2, 1][round]];
+        let Some(Ok(mut w)) = ser(&msk).ok().map(|b| WMsk::parse(&b)) else { return };
+        let before: BTreeSet<Vec<Vec<u8>>> = w.users.iter().cloned().collect();
+        if edit(&mut w, &mut rng).is_none() {
+            return;
+        }
+        let Out::Ok(m2) = de::<MasterSecretKey>(&w.write()) else {
+            // refusing such bytes altogether is not this property's business
+            st.bump("level_change_bytes_refused");
+            continue;
+        };
+        let Some(Ok(w2)) = ser(&m2).ok().map(|b| WMsk::parse(&b)) else { return };
+        let after: BTreeSet<Vec<Vec<u8>>> = w2.users.iter().cloned().collect();
+        st.bump("relations_checked");
+        if after != before {
+            fail(st, &format!("registered-ids-lost-when-reading-master-key:{name}"), format!("{} of {} registered ids survive reading a master key whose tracer list was edited ({name}; {issued} keys issued)", after.len(), before.len()), seed);
+            return;
+        }
+        msk = m2;
+        st.shapes.insert(fnv(format!("level-change|{name}").as_bytes()));
+    }
+}
+
 pub fn run(tier: &str, seed: u64, threads: usize) -> Stats {
     let n: u64 = if tier == "thorough" { 4000 } else { 320 };
     let max_users = if tier == "thorough" { 60 } else { 24 };
@@ -474,5 +531,6 @@ pub fn run(tier: &str, seed: u64, threads: usize) -> Stats {
     }
     let mut st = std::mem::take(&mut *total.lock().unwrap());
     many_users(&mut st, seed);
+    registry_across_level_change(&mut st, seed);
     st
 }
